@@ -206,6 +206,12 @@ func (p *TUDPTransport) WriteString(s string) (int, error) {
 	return n, thrift.NewTTransportExceptionFromError(err)
 }
 
+// Discard drops whatever has been written since the last Flush without
+// sending it, for a writer that abandons a message part-way.
+func (p *TUDPTransport) Discard() {
+	p.writeBuf.Reset()
+}
+
 // Flush flushes the write buffer as one udp packet
 func (p *TUDPTransport) Flush() error {
 	if !p.IsOpen() {
